@@ -3,6 +3,7 @@
      ev "meta"   the exception classes introspected from the code               fields  tree (class -> list of bases)
      ev "call"   one function applied to exact arguments                         fields  tb, f, args, obs
      ev "ident"  both sides of identity `name` evaluated at the point (z, w)     fields  tb, name, z, w, obs
+     ev "ctx"    a call of a scalar built-in on numbers sent down the road x (BuiltinFuncs!Contexts)  fields  x, f, args, obs
      ev "const"  one of the constants i, j, e, pi                                fields  tb, name, obs
    tb is the scope the text was evaluated in: "formula", "matrix" or "override" (every default name bound to an author's
    function returning BuiltinFuncs!Marker); every generated text is evaluated under all three, in a drawn order, within
@@ -35,6 +36,9 @@ Check(r) ==
   CASE r.ev = "meta" -> IF MetaOK(r) THEN "" ELSE "class-tree"
     [] r.ev = "call" -> LET e == Outcome(r.tb, r.f, Args(r)) IN
                         IF Accepts(e, r.obs) THEN "" ELSE Allowed(e) \o ":" \o e.k
+    [] r.ev = "ctx" -> IF CtxOneArgOnly(r.x) /\ Len(r.args) # 1 THEN "guard"
+                       ELSE LET v == CtxVerdict(r.x, r.f, Args(r)) IN
+                            IF AcceptsCtx(v, r.obs) THEN "" ELSE "context:" \o v
     [] r.ev = "const" -> IF ConstOK(r) THEN "" ELSE "const"
     [] r.ev = "ident" -> LET inst == Inst(r) IN
                          IF ~Guard(Identities[IdIndex(r.name)].g, NG(r.z), NG(r.w)) THEN "guard"
